@@ -25,8 +25,10 @@ type Profile struct {
 	DefBackPct     int      // share of ingresses with spec.defaultBackend (default 12) ...
 	DefBackOnlyPct int      // ... and of those, the share that declares nothing else (default 30)
 	CaseDupAnn     bool     // some annotation keys are declared twice, differing by case only
+	PrefixDupAnn   bool     // some keys are declared with the 2nd and the 3rd annotation prefix (other values) instead of the main one
 	SingleDefBack  bool     // at most one ingress with spec.defaultBackend (the default host then has one owner)
 	SparseOK       bool     // focused worlds may be sparse
+	Gateway        bool     // the world also holds a Gateway and HTTPRoutes (static during the history)
 	IngDeletePct   int      // share of the ingress ops that delete (default 20)
 	Sparse         bool     // one rule with one path per ingress: few incidental links between ingresses
 	TLS            bool
@@ -348,6 +350,16 @@ func (g *G) genIngress(ns, name string, created int) *world.Obj {
 			}
 			o.RawAnn[world.AnnPrefix+strings.ToUpper(a.Key[:1])+a.Key[1:]] = g.pick("casedupval", a.Values)
 		}
+		if g.P.PrefixDupAnn && len(a.Values) > 1 && g.chance("prefixdup", 25) {
+			// the key is declared twice with secondary prefixes: the prefix configured first wins
+			if o.RawAnn == nil {
+				o.RawAnn = map[string]string{}
+			}
+			i := g.intn("prefixdupval", 0, len(a.Values)-1)
+			delete(o.Ann, a.Key)
+			o.RawAnn[ctlsim.ExtraAnnPrefixes[0]+"/"+a.Key] = a.Values[i]
+			o.RawAnn[ctlsim.ExtraAnnPrefixes[1]+"/"+a.Key] = a.Values[(i+1)%len(a.Values)]
+		}
 	}
 	return o
 }
@@ -450,7 +462,12 @@ func (g *G) classify(o *world.Obj) {
 		}
 		return
 	}
-	switch g.intn("classmode", 0, 17) {
+	switch g.intn("classmode", 0, 19) {
+	case 18: // the annotation is there, with an empty value (a chart rendering an unset value)
+		o.RawAnn = map[string]string{world.ClassAnn: ""}
+	case 19:
+		o.RawAnn = map[string]string{world.ClassAnn: ""}
+		o.ClassName = sp(world.OurClass)
 	case 0, 1:
 		o.ClassName = sp(world.OurClass)
 	case 2, 3, 4, 5, 14, 15, 16, 17:
@@ -866,6 +883,19 @@ func requestsFor(objs []*world.Obj) ([]hapcfg.Request, []string) {
 	hostSet := map[string]bool{"unknown.local": true}
 	pathSet := map[string]bool{"/": true, "/zz": true}
 	for _, o := range objs {
+		if o.Kind == world.KHTTPRoute && o.RT != nil {
+			for _, h := range o.RT.Hostnames {
+				hostSet[h] = true
+			}
+			for _, r := range o.RT.Rules {
+				for _, m := range r.Matches {
+					if m.Value != "" {
+						pathSet[m.Value] = true
+						pathSet[strings.TrimRight(m.Value, "/")+"/x"] = true
+					}
+				}
+			}
+		}
 		if o.Kind != world.KIngress {
 			continue
 		}
@@ -1067,6 +1097,9 @@ func genHistoryX(t *rapid.T, p Profile, params ctlsim.Params, kinds []string, ma
 	if extras {
 		g.genRichExtras()
 	}
+	if params.Gateway {
+		g.genGatewayExtras()
+	}
 	c := HistCase{Params: params}
 	for _, o := range g.W.List() {
 		c.Init = append(c.Init, o.Clone())
@@ -1160,6 +1193,56 @@ func podFor(ns, svc string, a world.Addr, i int) *world.Obj {
 		lb["group"] = "green"
 	}
 	return &world.Obj{Kind: world.KPod, NS: ns, Name: a.Pod, Labels: lb, PodIP: a.IP, UID: "uid-" + ns + "-" + a.Pod, ContPorts: []world.SvcPort{{Name: "web", Port: 8443}}}
+}
+
+// genPods creates the Pod object behind every endpoint address; terminatingPct of them are being deleted
+// (deletionTimestamp set) while their address is still published.
+func (g *G) genPods(terminatingPct int) {
+	for _, ep := range g.W.OfKind(world.KEndpoints) {
+		for _, ss := range ep.Subsets {
+			for i, a := range append(append([]world.Addr{}, ss.Ready...), ss.NotReady...) {
+				if a.Pod == "" || g.W.Get(world.KPod, ep.NS+"/"+a.Pod) != nil {
+					continue
+				}
+				pod := podFor(ep.NS, ep.Name, a, i)
+				pod.Terminating = g.chance("terminating", terminatingPct)
+				g.add(pod)
+			}
+		}
+	}
+}
+
+// genGatewayExtras adds a Gateway of this controller and 1..3 HTTPRoutes to a world of ingresses: the Gateway API
+// objects do not change during the history (every change of them forces a full sync), but the hosts and backends
+// they configure are shared with the ingresses, which are synced partially.
+func (g *G) genGatewayExtras() {
+	g.add(&world.Obj{Kind: world.KGatewayClass, Name: "gwc", Controller: world.ControllerName})
+	for _, ns := range g.P.NS {
+		if g.W.Get(world.KNamespace, ns) == nil {
+			g.add(&world.Obj{Kind: world.KNamespace, Name: ns})
+		}
+	}
+	gwns := g.P.NS[0]
+	g.add(&world.Obj{Kind: world.KGateway, NS: gwns, Name: "gw", GW: &world.GatewaySpec{Class: "gwc", Listeners: []world.Listener{{Name: "l1", Port: 80, Protocol: "HTTP", From: "All"}}}})
+	n := g.intn("nroutes", 1, 3)
+	for i := 0; i < n; i++ {
+		ns := g.pick("rtns", g.P.NS)
+		rt := &world.Obj{Kind: world.KHTTPRoute, NS: ns, Name: fmt.Sprintf("r%d", i+1), Created: g.intn("created", 0, 3), RT: &world.RouteSpec{
+			Parents: []world.ParentRef{{Name: "gw", NS: sp(gwns)}}}}
+		switch g.intn("rthosts", 0, 3) {
+		case 0: // no hostname: the default host
+		case 1:
+			rt.RT.Hostnames = []string{g.pick("rthost", g.P.Hosts)}
+		default:
+			rt.RT.Hostnames = []string{"gw.local"}
+		}
+		port := 80
+		rt.RT.Rules = []world.RouteRule{{
+			Matches:  []world.Match{{Type: g.pick("mtype", []string{"PathPrefix", "Exact"}), Value: g.pick("mvalue", []string{"/", "/gw", "/app"})}},
+			Backends: []world.BackRef{{Name: g.pick("bsvc", g.svcs()), Port: &port}},
+		}}
+		g.add(rt)
+	}
 }
 
 // genRichExtras adds objects the rich profile refers to (CA secret, pods, tcp ConfigMap).
